@@ -381,6 +381,29 @@ func (c15) Run(ctx *core.RunCtx) {
 			ctx.Fail("refusal", "accepted-below-threshold", "GenAdditiveShare accepted %d active parties although the threshold is %d", len(list), t)
 			return
 		}
+		// the same parties named more than once: a listing of t or more entries that names fewer than t
+		// parties is still fewer than t parties
+		if len(list) >= 1 {
+			padded := append([]multiparty.ShamirPublicPoint{}, list...)
+			for len(padded) < t+ch.Draw("duplicate-padding", 2) {
+				padded = append(padded, list[ch.Draw("duplicate-of", len(list))])
+			}
+			pm := ch.Perm("duplicate-order", len(padded))
+			shuffled := make([]multiparty.ShamirPublicPoint, len(padded))
+			for i, j := range pm {
+				shuffled[i] = padded[j]
+			}
+			pk, site, msg := core.Protect(func() { err = p.cmb.GenAdditiveShare(shuffled, p.point, *p.acc, out) })
+			ctx.Count("oracle.refusal-below-threshold", 1)
+			if pk {
+				ctx.Fail("panic", "GenAdditiveShare|duplicates", "GenAdditiveShare with a listing that repeats parties panicked in %s: %s", site, msg)
+				return
+			}
+			if err == nil {
+				ctx.Fail("refusal", "accepted-duplicates-below-threshold", "GenAdditiveShare accepted a listing of %d entries naming only %d distinct parties although the threshold is %d (%v)", len(shuffled), len(list), t, shuffled)
+				return
+			}
+		}
 	}
 	if faults > 0 {
 		ctx.Nontrivial = true
